@@ -809,9 +809,11 @@ def homogeneous_keys(rng, kind, n):
 # ------------------------------------------------------------------------------------------------ systematic string grid
 # strings whose first / last lines are what the block-scalar header (indentation indicator, chomping) and the quoted
 # writers must get right: {leading break(s), leading space(s) / tab, both orders} x {plain, inner spaces, inner
-# more-indented line, inner empty line, long line} x {trailing break(s), trailing space, both orders}
+# more-indented line, inner empty line, long line, long lines with space runs of length 1-3} x {trailing break(s), trailing space, both orders}
 GRID_LEADS = ['', '\n', '\n\n', ' ', '  ', '\n ', '\n\n  ', ' \n', ' \n ', '\t', '\n\t']
-GRID_BODIES = ['abc', 'a b', 'abc\n def', 'a\n  more indented line\nb', 'a\n\nb', 'a b c d e f g h i j k l m n o p']
+GRID_BODIES = ['abc', 'a b', 'abc\n def', 'a\n  more indented line\nb', 'a\n\nb', 'a b c d e f g h i j k l m n o p',
+               # long lines whose inner space runs have length 1, 2 and 3 (a fold must not change the run it falls on)
+               'aaaa bbbb  cccc   dddd  eeee ffff', 'aa  bb   cc  dd   ee  ff   gg  hh']
 GRID_TRAILS = ['', '\n', '\n\n', ' ', ' \n', '\n ']
 GRID = [l + b + t for l in GRID_LEADS for b in GRID_BODIES for t in GRID_TRAILS]
 # the contexts a scalar can be written in: root, block sequence entry, mapping value, mapping key (simple-key context),
